@@ -69,6 +69,27 @@ pub fn c17_backoff_single() {
   kani::cover!(max > Duration::ZERO && max == base && attempts == 1, "cap equal to base, second attempt");
 }
 
+/// A success after any number of failures - with the retry deadline still stored, as when the connection comes
+/// up before the maintenance tick clears it - resets the back-off completely: the next outage starts at
+/// RECONNECT_IVL again.
+#[kani::proof]
+#[kani::unwind(34)]
+#[kani::stub(std::time::Instant::now, crate::stubs::instant_now)]
+pub fn c17_success_resets() {
+  let attempts: u32 = kani::any();
+  let base = any_ivl(true);
+  let max = any_ivl(false);
+  let mut st = VReconnectState::new(attempts);
+  let _ = st.on_connection_failure(base, max);
+  assert!(st.next_attempt_at().is_some());
+  st.on_connection_success();
+  assert!(st.current_attempts() == 0);
+  assert!(st.next_attempt_at().is_none());
+  let d = st.on_connection_failure(base, max);
+  assert!(d == if max > Duration::ZERO && max < base { max } else { base });
+  kani::cover!(attempts >= 3, "success after several failures");
+}
+
 #[kani::proof]
 #[kani::stub(std::time::Instant::now, crate::stubs::instant_now)]
 pub fn c17_is_due() {
